@@ -37,6 +37,15 @@ def _copy_target(t):
     return new
 
 
+def _fix_empty(stmts):
+    """blocks must not be empty"""
+    for st in stmts:
+        for n in ast.walk(st):
+            if isinstance(n, (ast.If, ast.For, ast.While, ast.With, ast.Try, ast.ExceptHandler) + FuncTypes) and not n.body:
+                n.body = [ast.Pass(lineno=getattr(n, "lineno", 1), col_offset=0)]
+    return stmts
+
+
 def _always_leaves(stmts):
     if not stmts:
         return False
@@ -116,8 +125,14 @@ def _has_effect(node):
     return any(isinstance(n, (ast.Call, ast.Yield, ast.YieldFrom, ast.Await, ast.NamedExpr)) for n in ast.walk(node))
 
 
+STABLE_MODULES = {"operator", "it", "itertools", "math", "cmath", "np", "numpy", "sys", "struct", "array", "wave"}
+
+
 def _simple(e):
-    return isinstance(e, (ast.Name, ast.Constant))
+    """evaluating it has no effect and gives the same object whenever it is done"""
+    if isinstance(e, (ast.Name, ast.Constant)):
+        return True
+    return isinstance(e, ast.Attribute) and isinstance(e.value, ast.Name) and e.value.id in STABLE_MODULES
 
 
 class _Subst(ast.NodeTransformer):
@@ -383,7 +398,7 @@ class Inliner(object):
                     x.col_offset = 0
                     x.end_col_offset = 0
         self.done.append(helper.name)
-        return out
+        return _fix_empty(out)
 
     def expressions(self, st, local):
         """expression-bodied helpers inside the statement's own expressions (not inside nested statements)"""
@@ -841,4 +856,6 @@ def cleanup_copies(fn, only=None):
         if not changed:
             break
         changed_any = True
+    if changed_any:
+        _fix_empty([fn])
     return changed_any
